@@ -95,6 +95,18 @@ def mk_frame(rng, domain, k):
             l2 = struct.pack("<HH", len(att), 4) + att
             pdu = bytes([0x02, len(l2)]) + l2
             aa = bytes([rng.randrange(1, 255) for _ in range(4)])
+        # frames whose Length byte disagrees with the captured size, both ways: a Bluetooth 5.1
+        # data PDU with the CP bit and a CTEInfo byte after the header, trailing bytes the
+        # Length byte does not announce, and a Length byte announcing more than was captured
+        r = rng.random()
+        if r < 0.12 and pdu[0] == 0x02:
+            pdu = bytes([0x22, pdu[1], 0x14]) + pdu[2:]
+        elif r < 0.24:
+            pdu = pdu + bytes(rng.randrange(256) for _ in range(rng.randrange(1, 4)))
+        elif r < 0.36 and pdu[1] >= 2:
+            pdu = bytes([pdu[0], pdu[1] + rng.randrange(1, 6)]) + pdu[2:]
+        elif r < 0.42:
+            pdu = bytes([pdu[0], max(0, pdu[1] - rng.randrange(1, 3))]) + pdu[2:]
         return aa + pdu + bytes(rng.randrange(256) for _ in range(3))
     if domain == "dot15d4":
         body = bytes([0x41, 0x88, k & 0xff]) + bytes.fromhex("34120000ffff") + tag + bytes(rng.randrange(256) for _ in range(rng.randrange(0, 20)))
@@ -826,6 +838,16 @@ def run(ctx):
             if "rssi" in m: pd["rssi_values"].add(m["rssi"])
             if "channel" in m: pd["channels"].add(m["channel"])
             nontriv.append([c["domain"], sorted((k, v) for k, v in m.items() if k != "ts")])
+    dist["ble_frames_length_byte"] = {"consistent": 0, "pdu_longer_than_announced": 0, "pdu_shorter_than_announced": 0, "cp_bit_cteinfo": 0}
+    for c in cases:
+        if c["domain"] == "ble":
+            for p in c["pkts"]:
+                f = bytes.fromhex(p["frame"])
+                if len(f) >= 9:
+                    pdu = f[4:-3]
+                    k = "consistent" if pdu[1] == len(pdu) - 2 else ("pdu_longer_than_announced" if pdu[1] < len(pdu) - 2 else "pdu_shorter_than_announced")
+                    dist["ble_frames_length_byte"][k] += 1
+                    dist["ble_frames_length_byte"]["cp_bit_cteinfo"] += bool(pdu[0] & 0x20) and f[:4] != bytes.fromhex("d6be898e")
     dist["concurrent_writer_injections"] = {}
     for c, rs in zip(cases, res_cases):
         for _i, _j, what in (rs.get("concurrent") or {}).get("interleaved", []):
